@@ -29,6 +29,11 @@ def driver_A():
                                                ("ret", B("+", B("*", IDX(V("arr"), 0), lit(10)), IDX(V("arr"), 1)))]),
         func("setfield", [("int", "d")], "int", [ASG(FLD(V("gs"), "n"), V("d")), ASG(("swz", FLD(V("gs"), "v"), "x"), ("swz", FLD(V("gs"), "v"), "y")), ("ret", FLD(V("gs"), "n"))]),
         func("swz", [("int", "d")], "float", [ASG(("swz", V("gv"), "xy"), ("swz", V("gv"), "yx")), ASG(IDX(V("gv"), 3), IDX(V("gv"), V("d"))), ("ret", IDX(V("gv"), 0))]),
+        func("viacall", [("int", "d")], "int", [("decl", "int", "before", V("counter")), ("decl", "int", "r", ("call", "bump", [V("d")])), ("decl", "int", "mid", V("counter")),
+                                               ASG(V("counter"), B("+", V("counter"), lit(1))), wrap(V("counter"), 2),
+                                               ("ret", B("+", B("+", B("*", V("before"), lit(1000)), B("*", V("mid"), lit(100))), B("+", B("*", V("r"), lit(10)), V("counter"))))]),
+        func("arrviacall", [("int", "d")], "int", [("decl", "int", "before", IDX(V("arr"), V("d"))), ("decl", "int", "r", ("call", "bumparr", [V("d")])),
+                                                  ("ret", B("+", B("*", V("before"), lit(100)), B("+", B("*", IDX(V("arr"), V("d")), lit(10)), V("r"))))]),
         func("digest", [("int", "d")], "int", [("ret", B("+", B("+", B("*", V("counter"), lit(100)), B("*", IDX(V("arr"), 0), lit(10))), B("+", IDX(V("arr"), 1), B("*", FLD(V("gs"), "n"), lit(1000)))))]),
     ]
     domains = {"counter": [0, 2], "arr": [[0, 0], [1, 0]], "gs": [{"n": 0, "v": [0.5, 1.5]}, {"n": 1, "v": [1.5, 1.5]}], "gv": [[1.0, 2.0, 3.0, 4.0], [2.0, 2.0, 1.0, 1.0]]}
